@@ -151,3 +151,14 @@ void *memset(void *dst, int c, size_t n)
 }
 #endif /* VERIF_BUILTIN_MEM */
 #endif
+
+/*
+ * gcc expands isfinite() to __builtin_isfinite, for which CBMC 6.11 has no
+ * body (the call would return a nondeterministic value).  Exact model.
+ */
+#ifdef VERIF_CBMC
+int __builtin_isfinite(double d)
+{
+    return !__CPROVER_isnand(d) && !__CPROVER_isinfd(d);
+}
+#endif
